@@ -1,5 +1,8 @@
 """C07 — tracing is oblivious: program shape cannot depend on run-time data."""
+import json
 import operator
+import os
+import sys
 from .. import core
 from ..extract import t3_classes as T3
 from ..real.env import reset_globals
@@ -245,7 +248,75 @@ def aliasing_results():
     return bad, n
 
 
+def recycled_results(rounds=40):
+    """Comparisons of short-lived literals (a table of thresholds validated in a helper, then dropped) followed by the same
+    comparison operators on freshly built secret and public values — objects the allocator may place where the dead literals
+    were.  The result of comparing two non-literal values is never a value whose truth Python can read."""
+    import gc
+    import nada_dsl as D
+    from nada_dsl.program_io import Input as RawInput
+    OPS2 = {"<": lambda a, b: a < b, "<=": lambda a, b: a <= b, ">": lambda a, b: a > b, ">=": lambda a, b: a >= b,
+            "==": lambda a, b: a == b, "!=": lambda a, b: a != b}
+    bad, n = [], 0
+    reset_globals()
+    party = D.Party("p")
+
+    def validate(k):
+        # a table of literal thresholds, compared pairwise; nothing of this survives the call
+        table = [D.Integer(10 * i + k) for i in range(12)] + [D.UnsignedInteger(7 * i + k) for i in range(4)]
+        for f in OPS2.values():
+            for i, low in enumerate(table[:12]):
+                for high in table[i + 1:12]:
+                    f(low, high)
+            for i, low in enumerate(table[12:]):
+                for high in table[12 + i + 1:]:
+                    f(low, high)
+    for k in range(rounds):
+        validate(k)
+        gc.collect()
+        for X in (D.SecretInteger, D.PublicInteger) if k % 2 == 0 else (D.PublicUnsignedInteger, D.SecretInteger):
+            fresh = [X(RawInput(f"x{k}_{i}", party)) for i in range(12)]
+            for sym, f in OPS2.items():
+                for i, a in enumerate(fresh):
+                    for j, b in enumerate(fresh):
+                        if i == j:
+                            continue
+                        r = f(a, b)
+                        n += 1
+                        if kind(lambda r=r: bool(r)) != "raises" or getattr(r, "is_literal", lambda: False)():
+                            bad.append((f"a table of literals compared pairwise and dropped, then {X.__name__} {sym} {X.__name__} on two fresh inputs (round {k})",
+                                        f"returned a {type(r).__name__} whose truth value Python can read: `if`, `min`, `sorted` silently take a branch"))
+                            reset_globals()
+                            return bad, n
+            del fresh
+    reset_globals()
+    return bad, n
+
+
+def recycled_fresh(rounds, seeds=(0, 1, 2)):
+    """`recycled_results` in new interpreters (what is allocated where depends on everything the process did before; a new
+    interpreter is what a user's compilation is), under several hash seeds"""
+    import subprocess
+    bad, n = [], 0
+    for seed in seeds:
+        env = dict(os.environ, PYTHONHASHSEED=str(seed), PYTHONDONTWRITEBYTECODE="1")
+        p = subprocess.run([sys.executable, "-c", "import json; from nv.props import c07; print(json.dumps(c07.recycled_results(%d)))" % rounds],
+                           env=env, capture_output=True, text=True, timeout=900)
+        try:
+            b, k = json.loads(p.stdout.strip().split("\n")[-1])
+        except (ValueError, IndexError):
+            raise core.Infra("recycled_results failed in a new interpreter: " + (p.stderr or p.stdout)[-400:])
+        bad += [tuple(x) for x in b]
+        n += k
+        if bad:
+            break
+    return bad, n
+
+
 def run(res, tier):
+    rec_bad, nrec = recycled_fresh(12 if tier == "quick" else 100)
+    for text, why in rec_bad[:2]:
+        res.violation({"property": "C07", "kind": "recycled", "expr": text, "why": why}, f"{text}: {why}")
     alias_bad, nalias = aliasing_results()
     for text, why in alias_bad[:4]:
         res.violation({"property": "C07", "kind": "aliased-member", "expr": text, "why": why}, f"{text}: {why}")
@@ -311,7 +382,7 @@ def run(res, tier):
                 "each also used as condition / ordering / membership); non-trivial = distinct (class, route, other) triples",
         "classes": [c.__name__ for c in classes],
         "protocol_model_disagreements": len(diffs),
-        "mixed_literal_operand_results_checked": nmixed,
+        "mixed_literal_operand_results_checked": nmixed, "comparisons_after_dropped_literals": nrec,
         "array_walks_checked": len(arr_rows), "array_provenances": sorted({p for p, _, _ in arr_rows}),
         "samples": samples,
     })
@@ -320,6 +391,12 @@ def run(res, tier):
 
 
 def replay(obj):
+    if obj.get("kind") == "recycled":
+        bad = recycled_fresh(100)[0]
+        print(bad or "ok")
+        if bad:
+            print("VIOLATION property=C07 replay=(replayed)")
+        return 1 if bad else 0
     if obj.get("kind") == "aliased-member":
         bad = [b for b in aliasing_results()[0] if b[0] == obj["expr"]]
         print(bad or "ok")
